@@ -12,10 +12,12 @@ def rnd_yield(rng):
     return round(rng.uniform(5, 120), rng.choice([0, 1, 3]))
 
 
-def gen_spec(rng, max_channels=3, max_samples=3, max_bins=4, want=None, simple=False, avoid=(), cross_channel_stat=False):
+def gen_spec(rng, max_channels=3, max_samples=3, max_bins=4, want=None, simple=False, avoid=(), cross_channel_stat=False, zero_stat_unc=False):
     """returns (spec, info).  `want`: optional set of modifier types that must appear; `avoid`: systematic names / modifier types never used
     `cross_channel_stat`: allow one MC-statistical name shared by several channels (only for the checks of the tensor engine: the XML
     format and the sample-splitting rewrites of other checks presuppose one staterror name per channel).
+    `zero_stat_unc`: a sample may declare MC-statistical uncertainty 0 in a bin where it has a yield (a data-driven background next to
+    simulated ones): its yield still counts in the total the bin's width is relative to.
     (parameter sets are created by modifier type — histosys, lumi, normfactor, normsys, shapefactor, shapesys, staterror — then by name, so
     avoiding SYS_POOL and 'lumi' puts the Poisson-constrained shapesys block *first* in the auxiliary data)."""
     nch = rng.randint(1, max_channels)
@@ -77,6 +79,7 @@ def gen_spec(rng, max_channels=3, max_samples=3, max_bins=4, want=None, simple=F
                     mods.append({'name': 'staterror_shared', 'type': 'staterror', 'data': unc})
                 elif sname in stat_samples:
                     unc = [round(d * rng.uniform(0.02, 0.2), 3) for d in data]
+                    if zero_stat_unc and rng.random() < 0.35: unc[rng.randrange(nb)] = 0.0
                     mods.append({'name': f'staterror_{cname}', 'type': 'staterror', 'data': unc})
                 if rng.random() < 0.15:
                     cand = [n for n, b in shapefactor_bins.items() if b == nb]
